@@ -168,8 +168,8 @@ def main(tier):
         import c10
         for n_, d_ in c10.dead_instruction_modules():
             names_ = c10.dead_instruction_modules.names
-            cases_ = [Case('d%d' % (k + 1), 'i', 'v', 0, -1, '%s: %s' % (n_.split(' (')[0], nm)) for k, nm in enumerate(names_)]
-            bd = Batch(d_, cases_, [('explicit', [(1,)])])
+            cases_ = [Case('d%d' % (k + 1), 'i', 'i', 0, -1, '%s: %s' % (n_.split(' (')[0], nm)) for k, nm in enumerate(names_)]
+            bd = Batch(d_, cases_, [('explicit', [(1,), (0xffffffff,)])])
             per.setdefault('dead-instructions', {'bodies': 0, 'evaluations': 0, 'nontrivial': 0})
             pending.append(('dead-instructions', bd, ex.submit(run_batch, bd, w2c2=w2c2, cc='gcc', cflags=('-O0', '-pthread'), defines=('-DWASM_THREADS_PTHREADS',))))
         drain(0)
